@@ -19,4 +19,8 @@ structure LeafArgs where
   name : Option Str
 deriving Repr
 
+/-- what `visit_search_field` hands down to the expression of a field: the analysed marker, the field prefix, and
+whether foreign keys of the context were kept -/
+abbrev FieldCtx := Bool × List Str × Bool
+
 end Luqum.PyPrim
